@@ -236,13 +236,14 @@ func c26Run(c c26Case, r *vp.Rec) error {
 			if rg[1] > next {
 				wantErr = "an unsent number"
 			} else {
-				lo := rg[0]
-				if lo < listStart {
-					lo = listStart
-				}
-				for n := lo; n < rg[1]; n++ {
+				// every skipped number counts, also one whose marker has already left
+				// the sent-packet list (the optimistic-ACK pattern skipping exists for)
+				for n := rg[0]; n < rg[1]; n++ {
 					if skipped[sp][n] {
 						wantErr = fmt.Sprintf("the skipped number %d", n)
+						if n < listStart {
+							r.Class("ack-names-forgotten-skipped-number")
+						}
 						break
 					}
 				}
